@@ -107,16 +107,22 @@ PROPS.update({
         "contracts": ["Pyro5.svr_threads.ClientConnectionJob.__call__", "Pyro5.svr_multiplex.SocketServer_Multiplex.handleRequest",
                       "Pyro5.svr_multiplex.SocketServer_Multiplex._handleConnection", "Pyro5.socketutil.SocketConnection.close#body", _HR],
         "groups": [{"modules": ["specs.socket_model", "specs.pystruct", "specs.seqdict", "specs.opaque", "specs.daemon_model", "contracts.server_loops"],
-                    "contracts": ["Pyro5.svr_multiplex.SocketServer_Multiplex.events"]}],
-        "harness": "replay/dispatch.py",
+                    "contracts": ["Pyro5.svr_multiplex.SocketServer_Multiplex.events"]},
+                   {"modules": ["specs.socket_model", "specs.pystruct", "specs.seqdict", "specs.opaque", "specs.daemon_model", "specs.stream_model", "contracts.streams"],
+                    "contracts": ["Pyro5.server.Daemon._clientDisconnect#streams"]}],
+        "harness": ["replay/dispatch.py", "replay/c13_sched.py"],
         "explanation": "thread job: for an accepted connection every exit path (any exception class out of handleRequest, exception in the hook) runs the disconnect "
                        "handling exactly once and then closes the connection exactly once; a refused connection is closed once without hook.  close(): every tracked "
                        "resource closed exactly once whatever the others raise, nothing else closed, resource set emptied, session instances dropped, socket closed even if "
                        "shutdown() raised, keep_open is a no-op.  handleRequest: constructors of session/percall instances run with the call context already naming this "
                        "connection (so resources they track land on it).  multiplex: handleRequest(conn) reports inactive exactly when the request raised; events() (second contract group, loop invariant per socket event) gives a "
                        "connection that became inactive the disconnect hook, the unregistration and the close - each exactly once, in that order, also when the hook raises - "
-                       "leaves active connections and the listening socket alone, and registers a new connection exactly when the accept path handed it back.",
-        "assumptions": _COMMON_ASSUME + ["multiplex events(): inactive -> _clientDisconnect, unregister, close is three straight-line statements checked by the native harness only",
+                       "leaves active connections and the listening socket alone, and registers a new connection exactly when the accept path handed it back.  Third group (shared with C10): "
+                       "Daemon._clientDisconnect itself - the stream-table walk (two loop invariants over a snapshot of the keys) cannot fail, touches only this connection's streams, and on every path the user's "
+                       "disconnect hook then runs exactly once; only the hook's own exception can leave the function.",
+        "assumptions": _COMMON_ASSUME + ["_clientDisconnect is proved sequentially; its interleavings with concurrent writers of the stream table (another connection registering / closing a stream, the housekeeper) "
+                                         "are explored by the bounded schedule harness replay/c13_sched.py at bytecode granularity (found the KeyError race repaired by fix 9cbc9cc)",
+                                         "multiplex events(): inactive -> _clientDisconnect, unregister, close is three straight-line statements checked by the native harness only",
                                          "daemon shutdown with open connections and GC-driven __del__ ordering are outside the claim"],
     },
     "C12": {
@@ -198,6 +204,9 @@ PROPS.update({
         "modules": _DISPATCH_MODS + ["contracts.client_invoke"],
         "contracts": ["Pyro5.client.Proxy._pyroInvoke", "Pyro5.client._RemoteMethod.__call__", _HR, "Pyro5.protocol.recv_stub",
                       "Pyro5.socketutil.SocketConnection.recv", "Pyro5.socketutil.SocketConnection.send"],
+        "groups": [{"modules": ["specs.socket_model", "specs.pystruct", "specs.seqdict", "specs.opaque", "specs.daemon_model", "contracts.socketutil", "contracts.protocol",
+                                "contracts.server_handshake", "contracts.servers", "contracts.client_invoke", "contracts.client_connect"],
+                    "contracts": ["Pyro5.client.Proxy.__pyroCreateConnection#body"]}],
         "harness": ["replay/c03.py", "replay/dispatch.py"],
         "explanation": "client side (_pyroInvoke): at most one request per call, carrying the 16-bit incremented sequence number; a call that returns has consumed "
                        "exactly one whole RESULT message whose sequence number equals the request's and whose serializer matches, never returns a reply flagged as "
@@ -205,10 +214,16 @@ PROPS.update({
                        "releases the connection; any other exception leaves the reply stream message-aligned (nothing read or one whole reply consumed).  "
                        "_RemoteMethod.__call__: between 1 and MAX_RETRIES+1 sends, a further send only after ConnectionClosedError/TimeoutError, the loop cannot run out "
                        "silently (precondition MAX_RETRIES >= 0).  server side: a reply (result or error) carries the request's sequence number and serializer id, a non-oneway request gets exactly one, a oneway "
-                       "request none, a non-batch request invokes at most one member; reads consume exactly one message (C06/C17 contracts).",
+                       "request none, a non-batch request invokes at most one member; reads consume exactly one message (C06/C17 contracts).  Second contract group - the body of "
+                       "Proxy.__pyroCreateConnection (the base case of the per-proxy invariant): after ANY exit the proxy either holds no connection, or the connection made during this call on which "
+                       "exactly one CONNECT message (this proxy's sequence number, the context's annotations) went out and exactly one whole reply, a CONNECTOK, was consumed - a refused, "
+                       "malformed or cut-off handshake never leaves a connection behind; an already connected proxy causes no traffic; a nested re-issue of a call (_pyroInvoke calling "
+                       "itself) counts as a second request.",
         "assumptions": _COMMON_ASSUME + ["delivery semantics of real TCP, forged matching sequence numbers",
                                          "the induction over the call history of one proxy (aligned and nothing outstanding, or no connection) is a pencil composition of the per-call contracts",
-                                         "Proxy.__pyroCreateConnection is a declared contract (fresh aligned connection or exception)"],
+                                         "_pyroInvoke uses Proxy.__pyroCreateConnection through a declared call-site contract (a fresh message-aligned connection, or an exception leaving no connection or a fully "
+                                         "handshaken one); the body is verified against it in the second contract group with core.resolve, create_socket, get_ssl_context, __processMetadata, the "
+                                         "_pyroValidateHandshake hook and _pyroGetMetadata (one _pyroInvoke by its own contract) as assumed interfaces (contracts/client_connect.py); connected_socket=None only"],
     },
     "C15": {
         "modules": ["specs.socket_model", "specs.seqdict", "specs.opaque", "specs.storage_model", "contracts.nameserver_locks"],
@@ -266,15 +281,21 @@ PROPS.update({
     "C20": {
         "modules": ["specs.socket_model", "specs.pystruct", "specs.seqdict", "specs.opaque", "specs.daemon_model", "specs.strings", "contracts.gateway"],
         "contracts": ["Pyro5.utils.httpgateway.process_pyro_request"],
+        "groups": [{"modules": ["specs.socket_model", "specs.pystruct", "specs.seqdict", "specs.opaque", "specs.daemon_model", "specs.strings", "contracts.gateway", "contracts.gateway_app"],
+                    "contracts": ["Pyro5.utils.httpgateway.pyro_app", "Pyro5.utils.httpgateway.singlyfy_parameters#body"]}],
         "harness": "replay/c20.py",
         "explanation": "process_pyro_request: every piece of Pyro traffic (name server connection, lookup, metadata fetch, remote attribute fetch, remote call) happens only "
                        "on paths where the configured gateway key was presented (header or $key, as a str whose utf-8 bytes equal the key) and the object name matches the "
                        "expose pattern; the name looked up and the member used are the ones named in the path; the call goes through the one proxy made for the looked-up "
                        "URI and passes exactly the query parameters (without $key when a key is configured); at most one lookup and one call per request; every refusal "
-                       "(403/404/405) happens without any Pyro traffic; exactly one HTTP status line on every path; the proxy is released.",
+                       "(403/404/405) happens without any Pyro traffic; exactly one HTTP status line on every path; the proxy is released.  Second contract group (routing): pyro_app forwards a request to process_pyro_request exactly when its path (leading slashes dropped) starts with "
+                       "'pyro/' and its method is GET or POST - with the path behind that prefix, the same environ and start_response, and the parameters parsed ONCE from QUERY_STRING with blank values "
+                       "kept (an empty value is a value) and made single; every other request gets exactly one of the fixed replies and nothing is forwarded; singlyfy_parameters (loop invariant) replaces "
+                       "every value that is a list / tuple of exactly one element by that element, keeps every other value, every key and the size.",
         "assumptions": ["WSGI environ/start_response, the name-server proxy, client.Proxy (incl. that names starting with '_' would be resolved on the local proxy object), "
                         "JSON and a user supplied expose pattern are modelled / uninterpreted (contracts/gateway.py)",
-                        "the split regex (.+)/(.+) as specified; pyro_app's routing (method, /pyro/ prefix) and singlyfy_parameters are covered by the native harness only",
+                        "the split regex (.+)/(.+) as specified; second contract group (routing): urllib.parse.parse_qs uninterpreted (its keep_blank_values argument is observed), the four fixed replies "
+                        "(redirect, OPTIONS, 405, 404) and process_pyro_request by their interfaces, str.lstrip('/') as 'a suffix that does not start with /'; the parameter dict as an in-place walked association list",
                         "fidelity of JSON and of the remote call itself (C01/C03)"],
     },
     "C01": {
@@ -330,7 +351,7 @@ PROPS.update({
         "contracts": ["Pyro5.server.Daemon._streamResponse#body", "Pyro5.server.DaemonObject.get_next_stream_item", "Pyro5.server.DaemonObject.close_stream",
                       "Pyro5.server.Daemon._clientDisconnect#streams", "Pyro5.server.Daemon._housekeeping#streams",
                       "Pyro5.client._StreamResultIterator.__next__", "Pyro5.client._StreamResultIterator.close"],
-        "harness": "replay/c10.py",
+        "harness": ["replay/c10.py", "replay/c10_sched.py"],
         "explanation": "per-operation contracts over the stream table T : id -> (owner, created, linger start, iterator), stated for one arbitrary id (free constant = "
                        "every id): registration adds exactly one entry (this connection, now, not lingering, the iterator) or nothing; get_next_stream_item returns "
                        "item(it, pos) of THIS stream's iterator and advances only it, re-attaches a lingering stream and clears its linger clock, forgets the stream on "
@@ -342,8 +363,9 @@ PROPS.update({
                        "StopIteration) exactly when the call raised StopIteration/GeneratorExit and stays open on any other error, close() sends at most one oneway "
                        "close_stream and uses its own proxy only while in sequence.  End-to-end sequences (items at the client = the server iterator's items) follow "
                        "from these per-call contracts plus C03 by induction on the number of fetches; that induction is argued in DESIGN.md, not machine-checked.",
-        "assumptions": ["sequential semantics: two workers / the housekeeper touching the stream table at the same time are NOT covered (the code has no common lock); "
-                        "the bounded harness drives steps one at a time as well",
+        "assumptions": ["the deductive contracts are sequential: two workers / the housekeeper touching the stream table at the same time are not covered by them (the code has no common lock); "
+                        "the bounded schedule harness replay/c10_sched.py interleaves PAIRS of table operations at bytecode granularity (strict alternation, and 'one thread runs k instructions, then the other') - "
+                        "it found the check-then-delete races repaired by fix 9cbc9cc and the listed finding C10-disconnect-resurrects-closed-stream",
                         "next(it) on a server-side iterator = ghost sequence (item(it, pos), pos+1) or any Exception subclass at its end; generators raising "
                         "BaseException subclasses that are not Exceptions are outside the model; time.time() is a non-decreasing positive real",
                         "uuid4 ids are assumed not to collide with ids in the table (the frame condition for other streams is conditional on that)",
